@@ -107,6 +107,8 @@ fn dispatch(cfg: &Cfg, rep: &mut Report) {
     match cfg.prop.as_str() {
         "C08" => props::c08::run(cfg, rep),
         "C09" => props::c09::run(cfg, rep),
+        "C10" => props::c10::run(cfg, rep),
+        "C15" => props::c15::run(cfg, rep),
         "C20" => props::c20::run(cfg, rep),
         other => {
             eprintln!("unknown property {other}");
@@ -119,6 +121,8 @@ fn dispatch_replay(cfg: &Cfg, kind: &str, payload: &str, rep: &mut Report) {
     match cfg.prop.as_str() {
         "C08" => props::c08::replay(payload, rep),
         "C09" => props::c09::replay(payload, rep),
+        "C10" => props::c10::replay(kind, payload, rep),
+        "C15" => props::c15::replay(kind, payload, rep),
         "C20" => props::c20::replay(kind, payload, rep),
         other => {
             eprintln!("unknown property {other}");
